@@ -90,10 +90,40 @@ def gen(rng, tier):
         # further absence steps are inserted into the result (around a step that is registered already) before all are deleted
         a = rng.choice(spec["cfg"]["absence"])
         spec["twin_insert"] = sorted(set([max(0, a - rng.randint(0, 2)), a + 1] + ([rng.randint(0, 12)] if rng.random() < 0.4 else [])))
+    if not twin and not only_fac and spec.get("backward") is None and spec.get("history") is None and not spec.get("from_json") \
+            and not spec.get("abs_edit") and spec["cfg"].get("unit_time", 1) == 1 and not spec["model"].get("ext_preds") and rng.random() < 0.12:
+        # a run made in two parts (cut off at k and saved; restarted from the file with new logs and absence steps of its own;
+        # the second log appended to the first project): the registered steps of the stitched logs are those of the two parts
+        k = rng.randint(1, 8)
+        spec["cfg"]["absence"] = [a for a in spec["cfg"].get("absence", []) if a < k]
+        spec["appended"] = {"k": k, "absence2": G.gen_absence(rng, 10, rng.randint(1, 3))}
     return spec
 
 
+def check_appended(res, spec):
+    """The stitched-log scenario of C01 (c01.check_appended), judged by C10's bookkeeping clause: the registered absence steps are
+    those of part 1 plus those of part 2 shifted by the length of part 1, and each of them is a zero-cost step."""
+    from . import c01
+    sub = C.campaign.Result()
+    p = c01.check_appended(sub, spec)
+    res.count("appended_logs_checked")
+    for v in sub.violations:
+        if v["key"] == "C01.after_append_log.registered_steps":
+            res.add("appended", "C10.after_append_log.registered_steps", v["msg"], None)
+            return
+    if p is not None:
+        for a in sorted(p.absence_time_list):
+            if 0 <= a < len(p.cost_list) and p.cost_list[a] != 0.0:
+                res.add("appended", "C10.after_append_log.registered_step_has_cost",
+                        "stitched logs: step %d is registered as an absence step and project.cost_list[%d] is %r" % (a, a, p.cost_list[a]), a)
+                return
+
+
 def extra_candidates(spec):
+    if spec.get("appended") is not None:
+        c = dict(spec)
+        c.pop("appended")
+        yield c
     for c in C.history_candidates(spec):
         yield c
     if spec.get("backward") is not None:
@@ -292,6 +322,8 @@ def run(spec):
     tr = C.run_forward(spec)
     tr.exact = spec.get("profile", {}).get("alphabet") == "dyadic"
     res = C.base_result(tr)
+    if spec.get("appended") is not None and tr.out.ok:
+        check_appended(res, spec)
     if spec.get("random_twin"):
         # the live oracles compute contributions from the skill means: only the twin comparison applies to uncertain progress
         res.count("random_progress_twin")
